@@ -13,6 +13,11 @@ Generic runner `cbmc_query(qid, params, ctx)`; params keys:
   replay       bool (default True): on failure, replay the inputs natively (gcc + ASan/UBSan)
   finding_key  optional python expression evaluated over the counterexample inputs `I` to give a key
   object_bits  default 12
+  instrument   list of [repo-relative source, output file name, anchor regex, text(, "replace")]: a copy of the CURRENT /repo
+               source with `text` inserted on a line of its own before the one line matching the anchor (or, with
+               "replace", substituted for the matched text) is generated into
+               a scratch include directory (first on the include path) for the harness to #include, for the CBMC
+               build and the native replay alike (check-time source instrumentation instead of a hook in /repo)
 """
 import fcntl
 import hashlib
@@ -80,11 +85,45 @@ def _locked_build(out, cmd, timeout=300):
     return True, ""
 
 
-def gb_for(ctx, src, defines, tag=""):
+def instrument_dir(ctx, params):
+    """-> (include dir or None, error message)."""
+    spec = params.get("instrument")
+    if not spec:
+        return None, ""
+    key = hashlib.sha1(json.dumps(spec).encode()).hexdigest()[:16]
+    d = os.path.join(ctx["scratch"], "instr_" + key)
+    with open(os.path.join(ctx["scratch"], "instr_%s.lock" % key), "w") as lf:
+        fcntl.flock(lf, fcntl.LOCK_EX)
+        if os.path.exists(os.path.join(d, ".done")):
+            return d, ""
+        os.makedirs(d, exist_ok=True)
+        files = {}
+        for ent in spec:
+            src, outname, anchor, text = ent[:4]
+            mode = ent[4] if len(ent) > 4 else "insert"
+            if outname not in files:
+                files[outname] = open(os.path.join(ctx["repo"], src)).read().split("\n")
+            lines = files[outname]
+            idx = [i for i, l in enumerate(lines) if re.search(anchor, l)]
+            if len(idx) != 1:
+                return None, "instrumentation anchor /%s/ matches %d lines of %s (expected 1)" % (anchor, len(idx), src)
+            if mode == "replace":      # the matched text of that line is replaced
+                lines[idx[0]] = re.sub(anchor, lambda m: text, lines[idx[0]], count=1)
+            else:                      # a new line before the matching line
+                lines.insert(idx[0], text)
+        for outname, lines in files.items():
+            with open(os.path.join(d, outname), "w") as fh:
+                fh.write("\n".join(lines))
+        open(os.path.join(d, ".done"), "w").close()
+    return d, ""
+
+
+def gb_for(ctx, src, defines, tag="", extra_inc=None):
     """goto-cc one translation unit (src absolute)."""
-    key = hashlib.sha1((src + "|" + "|".join(defines) + tag).encode()).hexdigest()[:16]
+    key = hashlib.sha1((src + "|" + "|".join(defines) + tag + (extra_inc or "")).encode()).hexdigest()[:16]
     out = os.path.join(ctx["scratch"], "gb_%s_%s.gb" % (os.path.basename(src).replace(".", "_"), key))
-    cmd = ["goto-cc", "-c", src, "-o", out] + inc_flags(ctx["repo"]) + ["-D" + d for d in BUILD_DEFS + list(defines)]
+    cmd = ["goto-cc", "-c", src, "-o", out] + (["-I" + extra_inc] if extra_inc else []) + inc_flags(ctx["repo"]) + \
+          ["-D" + d for d in BUILD_DEFS + list(defines)]
     ok, msg = _locked_build(out, cmd)
     return (out if ok else None), msg
 
@@ -195,8 +234,11 @@ def replay_native(ctx, params, cinit, workdir, tag):
     defs = ["-D" + d for d in BUILD_DEFS + list(params.get("defines", [])) + list(params.get("hdefines", []))]
     units = [os.path.join(ctx["repo"], u) for u in params.get("units", [])] + \
             [os.path.join(VERIF, u) for u in params.get("vunits", [])]
+    idir, imsg = instrument_dir(ctx, params)
+    if params.get("instrument") and not idir:
+        return None, imsg
     cmd = ["gcc", "-O0", "-g", "-w", "-fsanitize=address,undefined", "-fno-sanitize-recover=undefined",
-           "-DREPLAY", "-DREPLAY_INPUTS=\"%s\"" % inp, hp] + units + inc_flags(ctx["repo"]) + defs + ["-o", exe]
+           "-DREPLAY", "-DREPLAY_INPUTS=\"%s\"" % inp, hp] + units + (["-I" + idir] if idir else []) + inc_flags(ctx["repo"]) + defs + ["-o", exe]
     rc, o, e, _ = run(cmd, 300, 16)
     if rc != 0:
         return None, "replay build failed: " + e[-1500:]
@@ -241,7 +283,10 @@ def cbmc_query(qid, params, ctx):
             if not g:
                 return None, msg
             gbs.append(g)
-        g, msg = gb_for(ctx, os.path.join(VERIF, params["harness"]), defines + hdef + extra_hdef, tag)
+        idir, imsg = instrument_dir(ctx, params)
+        if params.get("instrument") and not idir:
+            return None, imsg
+        g, msg = gb_for(ctx, os.path.join(VERIF, params["harness"]), defines + hdef + extra_hdef, tag, extra_inc=idir)
         if not g:
             return None, msg
         gbs.append(g)
